@@ -484,10 +484,15 @@ func (d *driver) setup(spec CfgSpec) error {
 		if f.Override {
 			ftype = "oidc_override"
 			if defaultOIDC == nil {
-				// the default carries a complete configuration (that of the first override filter)
+				// the default carries the configuration of the first override filter, except the settings for which "not set" is
+				// a value of its own (no prefix, no limit, the in-memory store): those are left to each filter's override
 				defaultOIDC = map[string]any{}
 				for k, v := range o {
-					defaultOIDC[k] = v
+					switch k {
+					case "cookie_name_prefix", "absolute_session_timeout", "idle_session_timeout", "redis_session_store_config":
+					default:
+						defaultOIDC[k] = v
+					}
 				}
 				defaultLogoutPath = logoutPath(f)
 			}
